@@ -184,6 +184,12 @@ impl<K: HKey> Exec<K> {
             "cfg" => { for kv in &t[1..] { self.cfg.apply(kv); } return; }
             "obs" => { self.obs("O"); return; }
             "plant" | "mkdir" | "fault" => return,
+            "setsettings" => {
+                // rewrite the settings file of a closed store: setsettings <version> <pre 0/1> <n>
+                let js = format!("{{\"version\":{},\"dir_tree_is_pre_created\":{},\"num_ops_per_wal\":{}}}", t[1], t[2] == "1", t[3]);
+                std::fs::write(self.root.join("db_settings.json"), js).unwrap();
+                return;
+            }
             _ => {}
         }
         if t[0] != "open" && self.cas.is_none() {
